@@ -32,12 +32,12 @@ def _case(draw):
     D = draw(st.integers(2, 10))
     k = draw(st.integers(1, D - 1))
     eps = draw(st.sampled_from([0.0, 0.0, 0.02, 0.1]))
-    kind = draw(st.sampled_from(["well", "well", "rankdef", "zero", "ill"]))
+    kind = draw(st.sampled_from(["well", "well", "rankdef", "zero", "ill", "ill_rows"]))
     return dict(D=D, k=k, eps=eps, kind=kind,
                 R=draw(gen.mat(k, D - k, gen.quarter(-6, 6))), perm=draw(st.permutations(list(range(D)))),
                 Qd=draw(gen.mat(k, D, gen.quarter(-4, 4))), Qx=draw(gen.vec(k, st.integers(0, D - 1))), Qy=draw(gen.vec(k, st.integers(0, D - 1))),
                 mean=draw(gen.vec(D, gen.quarter(-8, 8))), L=draw(gen.mat(D, D, gen.quarter(-4, 4))), mask=draw(gen.vec(D, st.integers(0, 1))),
-                decades=draw(gen.vec(D, st.integers(-5, 0))), z=draw(gen.vec(D, gen.quarter(-6, 6))),
+                decades=draw(gen.vec(D, st.integers(-7, 0))), z=draw(gen.vec(D, gen.quarter(-6, 6))),
                 log_tol=draw(gen.exponent(-12.0, -4.0)), maxiter=draw(st.sampled_from([1, 1, 2, 3, 5, 10, 50])),
                 mode=draw(st.sampled_from(["direct", "direct", "direct", "filter_update"])),
                 # starting point of the iteration: the mean (what the library's own callers pass), or a warm start elsewhere
@@ -59,6 +59,12 @@ def _problem(case):
         L = L + 3.0 * np.eye(D)
     if case["kind"] == "ill":
         L = L * 10.0 ** np.asarray(case["decades"], float)[None, :]
+    if case["kind"] == "ill_rows":
+        # some variables are nearly known (standard deviations down to 1e-7) next to O(1) ones, and the constraint rows are sparse: a row
+        # that touches only nearly-known variables can only be met by moving those (valid, but badly scaled: sigma_min(J L) << sigma_max)
+        L = (L + 3.0 * np.eye(D)) * 10.0 ** np.asarray(case["decades"], float)[:, None]
+        keep = np.asarray(case["mask"], float)[np.asarray(case["perm"])]
+        J0 = J0 * np.where(np.abs(J0) == 1.0, 1.0, keep[None, :])  # pivots stay, the other entries are thinned out
     if case["kind"] == "rankdef":
         mask = np.asarray(case["mask"], float)
         mask[int(case["Qx"][0]) % D] = 0.0
@@ -162,8 +168,15 @@ def check_case(case):
         coef, *_ = np.linalg.lstsq(B, disp, rcond=None)
         resid = np.linalg.norm(disp - B @ coef)
     dscale = np.linalg.norm(disp) + 1e-9 * scale
-    res.metric("range_residual/tol", float(resid / dscale) / 1e-7)
-    if not resid <= 1e-7 * dscale:
+    svB = np.linalg.svd(B, compute_uv=False) if np.any(B) else np.ones(1)
+    svB = svB[svB > 1e-16 * svB[0]]
+    # B = L L^T J^T squares the scaling of L: membership is resolved to eps x cond(B) over *all* directions the solve treats as genuine
+    tol_rg = max(1e-7, 1e3 * np.finfo(float).eps * float(svB[0] / svB[-1]))
+    if tol_rg > 1e-2:
+        res.label("range:skipped_illconditioned")
+        resid = 0.0
+    res.metric("range_residual/tol", float(resid / dscale) / tol_rg)
+    if not resid <= tol_rg * dscale:
         res.violate("optimality:range" + (":gross" if resid > 1e-3 * dscale else ""),
                     f"displacement from the mean has a component of relative size {resid / dscale:.2e} outside range(L L^T J^T)")
     # the Gauss-Newton step itself: x = m - L (J L)^+ (g(x_prev) + J (m - x_prev))
@@ -173,8 +186,9 @@ def check_case(case):
     cond_ok = _well_posed(H)
     if cond_ok:
         e = float(np.max(np.abs(x - x_gn))) / scale
-        res.metric("gn_step/tol", e / 1e-8)
-        if not e <= 1e-8:
+        tol_gn = max(1e-8, 1e3 * np.finfo(float).eps * _cond(H))  # badly scaled (but valid) factors: error ~ eps x cond
+        res.metric("gn_step/tol", e / tol_gn)
+        if not e <= tol_gn:
             res.violate("gn_step" + (":gross" if e > 1e-3 else ""), f"returned point is not the Gauss-Newton step from x - final_increment (diff {e:.2e})")
     # affine: Gaussian conditional mean after one iteration, and feasible
     if affine:
@@ -182,8 +196,9 @@ def check_case(case):
         if _well_posed(H0):
             x_ref = m - L @ (np.linalg.pinv(H0, rcond=1e-13) @ (J0 @ m + c))
             e = float(np.max(np.abs(x - x_ref))) / scale
-            res.metric("affine/tol", e / 1e-8)
-            if not e <= 1e-8:
+            tol_af = max(1e-8, 1e3 * np.finfo(float).eps * _cond(H0))
+            res.metric("affine/tol", e / tol_af)
+            if not e <= tol_af:
                 res.violate("affine:conditional_mean" + (":gross" if e > 1e-3 else ""), f"affine constraint: result differs from the Gaussian conditional mean by {e:.2e}")
             if rms(gx) > max(tol, 1e-9 * float(np.max(gscale))):
                 res.violate("affine:infeasible", f"affine attainable constraint not satisfied: rms = {rms(gx):.2e}")
@@ -191,12 +206,22 @@ def check_case(case):
 
 
 def _well_posed(H):
-    """Is the least-squares problem with matrix H numerically unambiguous (clear rank gap)?"""
+    """Is the least-squares problem with matrix H numerically unambiguous? Singular values between the library's cut-off (eps x size)
+    and the reference's (1e-13) would be treated differently by the two: only those make a case ambiguous."""
     if H.size == 0 or not np.any(H):
         return True
     sv = np.linalg.svd(H, compute_uv=False)
     top = sv[0]
-    return not np.any((sv > 1e-13 * top) & (sv < 1e-6 * top))
+    return not np.any((sv > 1e-16 * top) & (sv < 1e-11 * top))
+
+
+def _cond(H):
+    """Condition number over the genuine (> 1e-11 x largest) singular values: comparisons carry an error of ~eps x this."""
+    if H.size == 0 or not np.any(H):
+        return 1.0
+    sv = np.linalg.svd(H, compute_uv=False)
+    keep = sv[sv > 1e-11 * sv[0]]
+    return float(sv[0] / keep[-1])
 
 
 def _filter_update(res, case, J0, L, m, c, eps, quad):
@@ -245,19 +270,21 @@ def _filter_update(res, case, J0, L, m, c, eps, quad):
     P = np.diag(sd**2)
     Jfull = np.zeros((k, D))
     Jfull[:, :nargs] = J
-    S = Jfull @ P @ Jfull.T
-    if not _well_posed(Jfull @ np.diag(sd)):
+    Hs = Jfull @ np.diag(sd)
+    if not _well_posed(Hs):
         raise common.Inconclusive("ambiguous rank of the observation")
-    Kg = P @ Jfull.T @ np.linalg.pinv(S, rcond=1e-13)
-    m_ref = m - Kg @ (Jfull @ m + c)
-    P_ref = P - Kg @ S @ Kg.T
+    # square-root form (pinv of J L, not of J P J^T: the latter squares the scaling of badly scaled but valid standard deviations)
+    Hp = np.linalg.pinv(Hs, rcond=1e-13)
+    m_ref = m - np.diag(sd) @ (Hp @ (Jfull @ m + c))
+    P_ref = np.diag(sd) @ (np.eye(D) - Hp @ Hs) @ np.diag(sd)
     scale = 1.0 + np.max(np.abs(m))
+    tol_fu = max(1e-8, 1e3 * np.finfo(float).eps * _cond(Hs))
     e = float(np.max(np.abs(pm - m_ref))) / scale
-    res.metric("filter_update:mean/tol", e / 1e-8)
-    if not e <= 1e-8:
+    res.metric("filter_update:mean/tol", e / tol_fu)
+    if not e <= tol_fu:
         res.violate("filter_update:mean", f"one filter update with an affine constraint (MAP linearisation point) is off by {e:.2e}")
     ec = float(np.max(np.abs(pc - P_ref))) / (1e-300 + float(np.max(np.abs(P))) + 1e-12)
-    res.metric("filter_update:cov/tol", ec / 1e-8)
-    if not ec <= 1e-8:
+    res.metric("filter_update:cov/tol", ec / tol_fu)
+    if not ec <= tol_fu:
         res.violate("filter_update:cov", f"posterior covariance of the exact affine update is off by {ec:.2e}")
     return res
